@@ -243,6 +243,10 @@ type Script struct {
 	Decls     []string
 	Asserts   []string
 	declared  map[string]bool
+	// relevance tags, parallel to Asserts: Defs[i] != "" marks the defining equation of that constant,
+	// Keys[i] != "" marks an axiom instance that matters only where the key term occurs
+	Defs []string
+	Keys []string
 }
 
 func NewScript() *Script { return &Script{declared: map[string]bool{}} }
@@ -269,18 +273,206 @@ func (s *Script) Raw(decl string) {
 	}
 }
 
+func (s *Script) add(text, def, key string) {
+	s.Asserts = append(s.Asserts, text)
+	s.Defs = append(s.Defs, def)
+	s.Keys = append(s.Keys, key)
+}
+
 func (s *Script) Assert(t Term) {
 	if t.S == "true" {
 		return
 	}
-	s.Asserts = append(s.Asserts, "(assert "+t.S+")")
+	for _, c := range splitConj(t.S) {
+		s.add("(assert "+c+")", "", "")
+	}
+}
+
+// splitConj splits nested top-level conjunctions "(and a (and b c))" into [a b c].
+func splitConj(t string) []string {
+	if !strings.HasPrefix(t, "(and ") {
+		return []string{t}
+	}
+	body := t[len("(and ") : len(t)-1]
+	var parts []string
+	for len(body) > 0 {
+		body = strings.TrimLeft(body, " ")
+		if body == "" {
+			break
+		}
+		p := readSexp(body)
+		if p == "" {
+			return []string{t}
+		}
+		parts = append(parts, splitConj(p)...)
+		body = body[len(p):]
+	}
+	return parts
+}
+
+// AssertDef records the defining equation of constant sym.
+func (s *Script) AssertDef(sym string, t Term) {
+	if t.S == "true" {
+		return
+	}
+	s.add("(assert "+t.S+")", sym, "")
+}
+
+// AssertKeyed records an axiom instance that is only relevant where the term `key` occurs.
+func (s *Script) AssertKeyed(key string, t Term) {
+	if t.S == "true" {
+		return
+	}
+	s.add("(assert "+t.S+")", "", key)
 }
 
 func (s *Script) AssertNamed(t Term, comment string) {
 	if t.S == "true" {
 		return
 	}
-	s.Asserts = append(s.Asserts, "; "+comment+"\n(assert "+t.S+")")
+	for _, c := range splitConj(t.S) {
+		s.add("; "+comment+"\n(assert "+c+")", "", "")
+	}
+}
+
+var symRe = regexp.MustCompile(`[A-Za-z_$][A-Za-z0-9_$@!.]*`)
+
+var smtWords = map[string]bool{"assert": true, "and": true, "or": true, "not": true, "ite": true, "select": true, "store": true, "forall": true, "exists": true,
+	"Int": true, "Real": true, "Bool": true, "String": true, "Array": true, "true": true, "false": true, "to_real": true, "to_int": true, "is_int": true,
+	"div": true, "mod": true, "as": true, "const": true, "let": true, "pattern": true, "rabs": true, "iabs": true, "imin": true, "imax": true, "rmin": true, "rmax": true,
+	"tdiv": true, "tmod": true, "rtrunc": true, "rceil": true, "mkslice": true, "sref": true, "slen": true, "mkiface": true, "ityp": true, "ival": true,
+	"Slice": true, "Iface": true, "rnd": true, "fp_tiny": true, "TIME_ZERO": true, "str.len": true}
+
+func symbolsOf(text string, into map[string]bool) {
+	// skip leading comment lines
+	for strings.HasPrefix(text, ";") {
+		k := strings.IndexByte(text, '\n')
+		if k < 0 {
+			return
+		}
+		text = text[k+1:]
+	}
+	for _, m := range symRe.FindAllString(text, -1) {
+		if !smtWords[m] && !strings.HasPrefix(m, "q_") {
+			into[m] = true
+		}
+	}
+}
+
+// relevant computes the assertion indexes (below cut, not excluded) relevant to the goal text:
+// defining equations only of needed constants, keyed axiom instances only where their key term
+// occurs, other facts when they share a symbol with what is already included. Dropping assertions
+// only weakens the background, so an unsat answer on the slice is an unsat answer on the whole.
+func (s *Script) relevant(goal string, cut int, excluded map[int]bool) map[int]bool {
+	return s.relevantDepth(goal, cut, excluded, -1)
+}
+
+// relevantDepth limits the number of definition-expansion rounds (depth < 0: unlimited): constants
+// whose definitions are left out are simply unconstrained, which is sound for unsat answers.
+func (s *Script) relevantDepth(goal string, cut int, excluded map[int]bool, depth int) map[int]bool {
+	n := len(s.Asserts)
+	if cut >= 0 && cut < n {
+		n = cut
+	}
+	// core symbols (goal + right-hand sides of the definitions they need) select facts; symbols that
+	// only occur in selected facts pull in their definitions but no further facts
+	core := map[string]bool{}
+	second := map[string]bool{}
+	symbolsOf(goal, core)
+	included := map[int]bool{}
+	var texts []string
+	texts = append(texts, goal)
+	syms := make([]map[string]bool, n)
+	for i := 0; i < n; i++ {
+		syms[i] = map[string]bool{}
+		symbolsOf(s.Asserts[i], syms[i])
+	}
+	round := 0
+	for changed := true; changed; {
+		changed = false
+		round++
+		allowDefs := depth < 0 || round <= depth
+		// symbols become visible to definitions only at the start of a round
+		coreSnap := map[string]bool{}
+		for k := range core {
+			coreSnap[k] = true
+		}
+		secondSnap := map[string]bool{}
+		for k := range second {
+			secondSnap[k] = true
+		}
+		for i := 0; i < n; i++ {
+			if included[i] || excluded[i] {
+				continue
+			}
+			switch {
+			case s.Defs[i] != "":
+				if !allowDefs {
+					continue
+				}
+				if !coreSnap[s.Defs[i]] && !secondSnap[s.Defs[i]] {
+					continue
+				}
+				if core[s.Defs[i]] {
+					included[i] = true
+					for sym := range syms[i] {
+						core[sym] = true
+					}
+				} else if second[s.Defs[i]] {
+					included[i] = true
+					for sym := range syms[i] {
+						if !core[sym] {
+							second[sym] = true
+						}
+					}
+				}
+			case s.Keys[i] != "":
+				for _, t := range texts {
+					if containsWord(t, s.Keys[i]) {
+						included[i] = true
+						break
+					}
+				}
+				if included[i] {
+					for sym := range syms[i] {
+						core[sym] = true
+					}
+				}
+			default:
+				take := len(syms[i]) == 0
+				for sym := range syms[i] {
+					if core[sym] {
+						take = true
+						break
+					}
+				}
+				if !take {
+					// a fact over symbols that are all present already cannot widen the slice
+					all := true
+					for sym := range syms[i] {
+						if !core[sym] && !second[sym] {
+							all = false
+							break
+						}
+					}
+					take = all
+				}
+				if take {
+					included[i] = true
+					for sym := range syms[i] {
+						if !core[sym] {
+							second[sym] = true
+						}
+					}
+				}
+			}
+			if included[i] {
+				changed = true
+				texts = append(texts, s.Asserts[i])
+			}
+		}
+	}
+	return included
 }
 
 var smtPrelude = `(declare-datatypes ((Slice 0)) (((mkslice (sref Int) (slen Int)))))
@@ -301,6 +493,26 @@ var smtPrelude = `(declare-datatypes ((Slice 0)) (((mkslice (sref Int) (slen Int
 // (goal holds under the background iff the query is unsat).
 func (s *Script) Query(negGoal Term, wantModel bool, cutDecls, cutAsserts int) string {
 	return s.QueryExcluding(negGoal, wantModel, cutDecls, cutAsserts, nil)
+}
+
+// QuerySliced is QueryExcluding restricted to the assertions relevant to the goal.
+func (s *Script) QuerySliced(negGoal Term, wantModel bool, cutDecls, cutAsserts int, excluded map[int]bool) string {
+	return s.QuerySlicedDepth(negGoal, wantModel, cutDecls, cutAsserts, excluded, -1)
+}
+
+func (s *Script) QuerySlicedDepth(negGoal Term, wantModel bool, cutDecls, cutAsserts int, excluded map[int]bool, depth int) string {
+	rel := s.relevantDepth(negGoal.S, cutAsserts, excluded, depth)
+	ex := map[int]bool{}
+	n := len(s.Asserts)
+	if cutAsserts >= 0 && cutAsserts < n {
+		n = cutAsserts
+	}
+	for i := 0; i < n; i++ {
+		if !rel[i] {
+			ex[i] = true
+		}
+	}
+	return s.QueryExcluding(negGoal, wantModel, cutDecls, cutAsserts, ex)
 }
 
 func (s *Script) QueryExcluding(negGoal Term, wantModel bool, cutDecls, cutAsserts int, excluded map[int]bool) string {
@@ -608,4 +820,40 @@ func modelInt(v string) (string, bool) {
 		}
 	}
 	return "", false
+}
+
+// containsWord reports whether key occurs in text delimited by non-identifier characters.
+func containsWord(text, key string) bool {
+	key = strings.TrimSpace(key)
+	if key == "" {
+		return false
+	}
+	isId := func(c byte) bool {
+		return c == '_' || c == '$' || c == '@' || c == '!' || c == '.' || c >= '0' && c <= '9' || c >= 'a' && c <= 'z' || c >= 'A' && c <= 'Z'
+	}
+	for i := 0; ; {
+		k := strings.Index(text[i:], key)
+		if k < 0 {
+			return false
+		}
+		st := i + k
+		en := st + len(key)
+		okL := st == 0 || !isId(text[st-1]) || !isId(key[0])
+		okR := en >= len(text) || !isId(text[en]) || !isId(key[len(key)-1])
+		if okL && okR {
+			return true
+		}
+		i = st + 1
+	}
+}
+
+// writeQuery stores a query in the scratch directory and returns its path (removed at exit).
+func writeQuery(q string) string {
+	queryMu.Lock()
+	queryCounter++
+	n := queryCounter
+	queryMu.Unlock()
+	file := filepath.Join(scratchDir(), fmt.Sprintf("s%05d.smt2", n))
+	os.WriteFile(file, []byte(q), 0o644)
+	return file
 }
